@@ -238,6 +238,8 @@ structure Accepted (c : Config) (e : Eff) : Prop where
   serverNames : checkUnique "dup-server" [] (c.servers.map (·.name)) = .ok ()
   router : checkRouter c.router (c.resolvers.map (·.name)) e.tcpNames e.udpNames (c.servers.map (·.name)) = .ok ()
   effServers : mapE checkServer c.servers = .ok e.servers
+  api : checkApi c.api = .ok ()
+  routes : e.routes = routeKinds c.router
 
 theorem validate_ok {c : Config} {e : Eff} (h : validate c = .ok e) : Accepted c e := by
   unfold validate at h
@@ -263,11 +265,14 @@ theorem validate_ok {c : Config} {e : Eff} (h : validate c = .ok e) : Accepted c
               split at h
               · cases h
               · rename_i ess h6
-                cases h
-                refine ⟨?_, h1, h2, h3, h4, h5, h6⟩
-                intro hnil
-                rw [hnil] at h0
-                exact h0 rfl
+                split at h
+                · cases h
+                · rename_i h7
+                  cases h
+                  refine ⟨?_, h1, h2, h3, h4, h5, h6, h7, rfl⟩
+                  intro hnil
+                  rw [hnil] at h0
+                  exact h0 rfl
 
 -- ---------------------------------------------------------------- accepted_sound
 
@@ -883,6 +888,380 @@ example : Config.bitsetCapacity { servers := [{ exServer with name := "" }, { ex
 
 end SSV.C18
 
+namespace SSV.C18
+open SSV.Config SSV.Gen
+
+-- ---------------------------------------------------------------- completeness: generic
+
+theorem firstErr_all_false : ∀ {l : List (Bool × String)}, (∀ p ∈ l, p.1 = false) → firstErr l = none
+  | [], _ => rfl
+  | (c, e) :: rest, h => by
+    have hc : c = false := h (c, e) List.mem_cons_self
+    unfold firstErr
+    rw [hc]
+    simp only [Bool.false_eq_true, if_false]
+    exact firstErr_all_false (fun p hp => h p (List.mem_cons_of_mem _ hp))
+
+theorem mapE_complete {α β : Type} {f : α → R β} : ∀ {l : List α}, (∀ x ∈ l, ∃ y, f x = .ok y) → ∃ r, mapE f l = .ok r
+  | [], _ => ⟨[], rfl⟩
+  | a :: as, h => by
+    obtain ⟨y, hy⟩ := h a List.mem_cons_self
+    obtain ⟨ys, hys⟩ := mapE_complete (fun x hx => h x (List.mem_cons_of_mem _ hx))
+    exact ⟨y :: ys, by unfold mapE; rw [hy, hys]⟩
+
+-- ---------------------------------------------------------------- listeners
+
+/-- the documented conditions on a UDP listener; `floor` is the session server's minimum NAT timeout -/
+structure ULSpec (floor : Int) (l : UL) : Prop where
+  network : l.network = "udp" ∨ l.network = "udp4" ∨ l.network = "udp6"
+  batchMode : l.batchMode = "" ∨ l.batchMode = "no" ∨ l.batchMode = "sendmmsg"
+  relay : 0 ≤ l.relayBatch ∧ l.relayBatch ≤ Doc.maxBatch
+  recv : 0 ≤ l.recvBatch ∧ l.recvBatch ≤ Doc.maxBatch
+  cap : l.sendCap = 0 ∨ Doc.minCapacity ≤ l.sendCap
+  nat : l.natTimeout = 0 ∨ floor ≤ l.natTimeout
+
+theorem rangeDefault_complete {x max d : Int} (h0 : 0 ≤ x) (h1 : x ≤ max) : ∃ v, rangeDefault x max d = some v := by
+  unfold rangeDefault
+  by_cases hx : 0 < x
+  · exact ⟨x, by rw [if_pos ⟨hx, h1⟩]⟩
+  · have : x = 0 := by omega
+    exact ⟨d, by rw [if_neg (fun h => hx h.1), if_pos this]⟩
+
+theorem checkUL_complete {floor : Int} {l : UL} (h : ULSpec floor l) : ∃ e, checkUL floor l = .ok e := by
+  obtain ⟨g1, g2, g3, _, _, _⟩ := gen_perf
+  have hnet : (decide (l.network = "udp") || decide (l.network = "udp4") || decide (l.network = "udp6")) = true := by
+    rcases h.network with h1 | h1 | h1 <;> simp [h1]
+  have hbm : C18.batchModes.contains l.batchMode = true := by
+    rcases h.batchMode with h1 | h1 | h1 <;> rw [h1] <;> decide
+  obtain ⟨rb, hrb⟩ := rangeDefault_complete (max := (C18.relayBatchMax : Int)) (d := (C18.relayBatchDefault : Int)) h.relay.1 (by rw [g1]; exact h.relay.2)
+  obtain ⟨sb, hsb⟩ := rangeDefault_complete (max := (C18.recvBatchMax : Int)) (d := (C18.recvBatchDefault : Int)) h.recv.1 (by rw [g2]; exact h.recv.2)
+  have hcap : ∃ cc, capDefault l.sendCap = some cc := by
+    unfold capDefault
+    rcases h.cap with h1 | h1
+    · by_cases h2 : (C18.sendCapMin : Int) ≤ l.sendCap
+      · exact ⟨_, by rw [if_pos h2]⟩
+      · exact ⟨_, by rw [if_neg h2, if_pos h1]⟩
+    · exact ⟨_, by rw [if_pos (by rw [g3]; exact h1)]⟩
+  obtain ⟨cc, hcc⟩ := hcap
+  have hnat : ∃ nt, natEff floor l.natTimeout = some nt := by
+    unfold natEff
+    by_cases hz : l.natTimeout = 0
+    · exact ⟨_, by rw [if_pos hz]⟩
+    · rcases h.nat with h1 | h1
+      · exact absurd h1 hz
+      · have hs : natTooSmall l.natTimeout floor = false := by
+          unfold natTooSmall
+          rw [gen_nat.2.2.1]
+          simp only [Bool.false_eq_true, if_false, decide_eq_false_iff_not]
+          omega
+        exact ⟨l.natTimeout, by rw [if_neg hz, hs]; simp⟩
+  obtain ⟨nt, hnt⟩ := hnat
+  refine ⟨{ batchMode := l.batchMode, relayBatch := rb, recvBatch := sb, sendCap := cc, natTimeout := nt }, ?_⟩
+  unfold checkUL
+  simp only [hnet, hbm, hrb, hsb, hcc, hnt, Bool.not_true, Bool.false_eq_true, if_false]
+
+structure TLSpec (l : TL) : Prop where
+  network : l.network = "tcp" ∨ l.network = "tcp4" ∨ l.network = "tcp6"
+  timeout : 0 ≤ l.waitTimeout
+  buf : 0 ≤ l.waitBuf
+
+theorem checkTL_complete {l : TL} (h : TLSpec l) : ∃ u, checkTL l = .ok u := by
+  have hnet : (decide (l.network = "tcp") || decide (l.network = "tcp4") || decide (l.network = "tcp6")) = true := by
+    rcases h.network with h1 | h1 | h1 <;> simp [h1]
+  have h1 : ¬ l.waitTimeout < 0 := by have := h.timeout; omega
+  have h2 : ¬ l.waitBuf < 0 := by have := h.buf; omega
+  exact ⟨(), by unfold checkTL; simp only [hnet, h1, h2, Bool.not_true, Bool.false_eq_true, if_false]⟩
+
+-- ---------------------------------------------------------------- servers
+
+/-- the session server advertises exactly the replay window as its minimum NAT timeout -/
+theorem gen_nat_exact : (C18.ss2022MinNATTimeout : Int) = (C18.ReplayWindowDuration : Int) := by decide
+
+/-- the smallest explicit NAT timeout a UDP listener of the protocol may carry -/
+def natFloor (p : Proto) : Int := if p.isSS then (C18.ReplayWindowDuration : Int) else 0
+
+theorem minNatOf_eq (p : Proto) : minNatOf p = natFloor p := by
+  unfold minNatOf natFloor
+  rw [gen_nat_exact]
+
+/-- the documented conditions on one server (modelled fields) -/
+structure ServerSpec (s : Server) : Prop where
+  tunnel : s.proto = .direct → s.tunnel ≠ .absent
+  httpTLS : s.proto = .http → s.httpTLS = true → s.httpCertList = true
+  httpCert : s.proto = .http → s.allTCP ≠ [] → s.httpCertList = false   -- no certificate store in the modelled subset
+  psk : s.proto.isSS = true → Doc.keyLen s.proto = some s.pskLen
+  filter : s.proto.isSS = true → s.filterSize ≤ 1048576
+  upsk : s.proto.isSS = true → s.upsk ≠ .missing ∧ ∀ l, s.upsk = .keys l → Doc.keyLen s.proto = some l
+  tcpProto : s.allTCP ≠ [] → s.proto ≠ .other
+  tcpL : ∀ l ∈ s.allTCP, TLSpec l
+  mtu : s.allUDP ≠ [] → Doc.minMTU ≤ s.mtu
+  udpProto : s.allUDP ≠ [] → s.proto.serverUDP = true
+  targetOnly : s.allUDP ≠ [] → s.proto = .direct → s.targetOnly = true → s.tunnel = .ip
+  udpL : ∀ l ∈ s.allUDP, ULSpec (natFloor s.proto) l
+
+theorem isEmpty_false_iff {α : Type} {l : List α} : l.isEmpty = false ↔ l ≠ [] := by
+  cases l <;> simp
+
+theorem checkServer_complete {s : Server} (h : ServerSpec s) : ∃ e, checkServer s = .ok e := by
+  have hfmax : C18.serverFilterSizeMax = some 1048576 := rfl
+  have hinit : firstErr s.initChecks = none := by
+    apply firstErr_all_false
+    intro p hp
+    simp only [Server.initChecks, List.mem_cons, List.not_mem_nil, or_false] at hp
+    rcases hp with rfl | rfl | rfl | rfl | rfl | rfl
+    · by_cases hd : s.proto = .direct
+      · have := h.tunnel hd
+        cases ht : s.tunnel <;> simp_all [Addr.valid]
+      · simp [hd]
+    · by_cases hd : s.proto = .http
+      · cases ht : s.httpTLS
+        · simp
+        · simp [h.httpTLS hd ht]
+      · simp [hd]
+    · cases hs : s.proto.isSS
+      · simp
+      · have hk := h.psk hs
+        have : pskOK s.proto s.pskLen [] = true := by
+          unfold pskOK
+          rw [gen_pskLen, hk]
+          simp
+        simp [this]
+    · cases hs : s.proto.isSS
+      · simp
+      · have := h.filter hs
+        simp [hfmax, filterSizeOK, this]
+    · cases he : s.allTCP.isEmpty
+      · have := h.tcpProto (isEmpty_false_iff.mp he)
+        cases hp : s.proto <;> simp_all [Proto.serverTCP]
+      · simp
+    · cases he : s.allTCP.isEmpty
+      · by_cases hd : s.proto = .http
+        · simp [h.httpCert hd (isEmpty_false_iff.mp he)]
+        · simp [hd]
+      · simp
+  obtain ⟨tl, htl⟩ := mapE_complete (f := checkTL) (l := s.allTCP) (fun l hl => checkTL_complete (h.tcpL l hl))
+  have hudp : firstErr s.udpChecks = none := by
+    apply firstErr_all_false
+    intro p hp
+    simp only [Server.udpChecks, List.mem_cons, List.not_mem_nil, or_false] at hp
+    cases he : s.allUDP.isEmpty
+    · have hne := isEmpty_false_iff.mp he
+      rcases hp with rfl | rfl | rfl
+      · have := h.mtu hne
+        have hm : ¬ s.mtu < (C18.serverMTUMin : Int) := by rw [gen_mtu.1]; omega
+        simp [hm]
+      · by_cases hd : s.proto = .direct
+        · cases ht : s.targetOnly
+          · simp
+          · simp [h.targetOnly hne hd ht]
+        · simp [hd]
+      · simp [h.udpProto hne]
+    · rcases hp with rfl | rfl | rfl <;> simp [he]
+  obtain ⟨uls, huls⟩ := mapE_complete (f := checkUL (minNatOf s.proto)) (l := s.allUDP)
+    (fun l hl => by rw [minNatOf_eq]; exact checkUL_complete (h.udpL l hl))
+  have hupsk : (s.proto.isSS && !upskOK s.proto s.upsk) = false := by
+    cases hs : s.proto.isSS
+    · simp
+    · have ⟨h1, h2⟩ := h.upsk hs
+      cases hu : s.upsk with
+      | none => simp [upskOK]
+      | missing => exact absurd hu h1
+      | keys l =>
+        have := h2 l hu
+        simp [upskOK, gen_pskLen, this]
+  exact ⟨s.eff uls, by unfold checkServer; rw [hinit, htl, hudp, huls, hupsk]; simp⟩
+
+
+-- ---------------------------------------------------------------- clients
+
+/-- the documented conditions on one client (modelled fields) -/
+structure ClientSpec (k : Client) : Prop where
+  network : k.network = "" ∨ k.network = "ip" ∨ k.network = "ip4" ∨ k.network = "ip6"
+  /-- `endpoint` xor (`tcpAddress` / `udpAddress` for the enabled networks), nothing for `direct` -/
+  addresses : k.addressesOK = true
+  socks5 : k.proto = .socks5 → k.s5auth = true → lenOK k.s5userLen = true ∧ lenOK k.s5passLen = true
+  psk : k.proto.isSS = true → Doc.keyLen k.proto = some k.pskLen ∧ ∀ n ∈ k.ipskLens, Doc.keyLen k.proto = some n
+  filter : k.proto.isSS = true → k.filterSize ≤ 1048576
+  tcpProto : k.enableTCP = true → k.proto.clientTCP = true
+  mtu : k.enableUDP = true → Doc.minMTU ≤ k.mtu
+  udpProto : k.enableUDP = true → k.proto.clientUDP = true
+
+theorem checkClient_complete {k : Client} (h : ClientSpec k) : ∃ e, checkClient k = .ok e := by
+  have hfmax : C18.clientFilterSizeMax = some 1048576 := rfl
+  have hall : firstErr k.checks = none := by
+    apply firstErr_all_false
+    intro p hp
+    simp only [Client.checks, List.mem_cons, List.not_mem_nil, or_false] at hp
+    rcases hp with rfl | rfl | rfl | rfl | rfl | rfl | rfl | rfl
+    · rcases h.network with h1 | h1 | h1 | h1 <;> simp [networkOK, h1]
+    · simp [h.addresses]
+    · by_cases hd : k.proto = .socks5
+      · cases ha : k.s5auth
+        · simp
+        · have := h.socks5 hd ha
+          simp [this.1, this.2]
+      · simp [hd]
+    · cases hs : k.proto.isSS
+      · simp
+      · have ⟨hk, hi⟩ := h.psk hs
+        have : pskOK k.proto k.pskLen k.ipskLens = true := by
+          unfold pskOK
+          rw [gen_pskLen, hk]
+          simp only [decide_true, Bool.true_and, List.all_eq_true, decide_eq_true_eq]
+          intro n hn
+          have := hi n hn
+          rw [hk] at this
+          exact (Option.some.inj this).symm
+        simp [this]
+    · cases hs : k.proto.isSS
+      · simp
+      · have := h.filter hs
+        simp [hfmax, filterSizeOK, this]
+    · cases ht : k.enableTCP
+      · simp
+      · simp [h.tcpProto ht]
+    · cases hu : k.enableUDP
+      · simp
+      · have := h.mtu hu
+        have hm : ¬ k.mtu < (C18.clientMTUMin : Int) := by rw [gen_mtu.2]; omega
+        simp [hm]
+    · cases hu : k.enableUDP
+      · simp
+      · simp [h.udpProto hu]
+  exact ⟨k.eff, by unfold checkClient; rw [hall]⟩
+
+theorem checkClients_complete : ∀ {cs : List Client} {seen : List String},
+    (cs.map (·.name)).Nodup → (∀ k ∈ cs, k.name ∉ seen) → (∀ k ∈ cs, ClientSpec k) → ∃ es, checkClients seen cs = .ok es
+  | [], _, _, _, _ => ⟨[], rfl⟩
+  | k :: ks, seen, hnd, hns, hsp => by
+    simp only [List.map_cons] at hnd
+    have ⟨hk, hnd'⟩ := List.nodup_cons.mp hnd
+    obtain ⟨ek, hek⟩ := checkClient_complete (hsp k List.mem_cons_self)
+    have hseen : seen.contains k.name = false := by
+      have := hns k List.mem_cons_self
+      simpa using this
+    obtain ⟨es, hes⟩ := checkClients_complete (cs := ks) (seen := k.name :: seen) hnd'
+      (by
+        intro d hd hmem
+        rcases List.mem_cons.mp hmem with heq | hm
+        · exact hk (List.mem_map.mpr ⟨d, hd, heq⟩)
+        · exact hns d (List.mem_cons_of_mem _ hd) hm)
+      (fun d hd => hsp d (List.mem_cons_of_mem _ hd))
+    exact ⟨ek :: es, by unfold checkClients; rw [hseen, hek, hes]; simp⟩
+
+theorem checkUnique_complete {code : String} : ∀ {ns seen : List String},
+    ns.Nodup → (∀ n ∈ ns, n ∉ seen) → checkUnique code seen ns = .ok ()
+  | [], _, _, _ => rfl
+  | n :: ns, seen, hnd, hns => by
+    have ⟨hn, hnd'⟩ := List.nodup_cons.mp hnd
+    have hseen : seen.contains n = false := by
+      have := hns n List.mem_cons_self
+      simpa using this
+    unfold checkUnique
+    rw [hseen]
+    simp only [Bool.false_eq_true, if_false]
+    apply checkUnique_complete hnd'
+    intro m hm hmem
+    cases hmem with
+    | head => exact hn hm
+    | tail _ h' => exact hns m (List.mem_cons_of_mem _ hm) h'
+
+-- ---------------------------------------------------------------- the whole configuration
+
+/-- **completeness (partial)**: a configuration whose servers and clients satisfy the documented conditions
+    (`ServerSpec`, `ClientSpec`: exactly the conditions `accepted_sound` derives, plus protocol / network /
+    address well-formedness) and whose server and client names are unique IS ACCEPTED, provided the client-group,
+    resolver, router and API stages succeed.  Together with `accepted_sound` / `violating_rejected` this
+    characterises acceptance exactly on the server / client / listener part.
+    MISSING for the full statement: declarative specifications (and completeness proofs) of the last four stages -
+    their soundness halves are `accepted_groups`, `accepted_resolvers`, `route_sound`, `api_sound`. -/
+theorem validate_complete_partial {c : Config}
+    (hne : c.servers ≠ [])
+    (hsrv : ∀ s ∈ c.servers, ServerSpec s) (hsn : (c.servers.map (·.name)).Nodup)
+    (hcl : ∀ k ∈ effectiveClients c, ClientSpec k) (hcn : ((effectiveClients c).map (·.name)).Nodup)
+    (hstages : ∃ tcp udp,
+      checkGroups ((effectiveClients c).map (·.name)) [] c.groups (tcpNamesOf (effectiveClients c)) (udpNamesOf (effectiveClients c)) = .ok (tcp, udp) ∧
+      checkResolvers tcp udp [] c.resolvers = .ok () ∧
+      checkRouter c.router (c.resolvers.map (·.name)) tcp udp (c.servers.map (·.name)) = .ok ())
+    (hapi : checkApi c.api = .ok ()) :
+    ∃ e, validate c = .ok e := by
+  obtain ⟨tcp, udp, hg, hr, hro⟩ := hstages
+  obtain ⟨ecs, hecs⟩ := checkClients_complete (seen := []) hcn (fun _ _ h => by cases h) hcl
+  have hu := checkUnique_complete (code := "dup-server") (seen := []) hsn (fun _ _ h => by cases h)
+  obtain ⟨ess, hess⟩ := mapE_complete (f := checkServer) (l := c.servers) (fun s hs => checkServer_complete (hsrv s hs))
+  have hemp : c.servers.isEmpty = false := isEmpty_false_iff.mpr hne
+  refine ⟨{ clients := ecs, servers := ess, routes := routeKinds c.router, tcpNames := tcp, udpNames := udp }, ?_⟩
+  unfold validate
+  simp only [hemp, Bool.false_eq_true, if_false, hecs, hg, hr, hu, hro, hess, hapi]
+
+/-- the server / client specifications are also NECESSARY: what `accepted_sound` says, in `ServerSpec` form -/
+theorem serverSpec_of_accepted {s : Server} {e : EffServer} (h : checkServer s = .ok e) :
+    (s.proto.isSS = true → Doc.keyLen s.proto = some s.pskLen) ∧ (s.allUDP ≠ [] → Doc.minMTU ≤ s.mtu) ∧
+    (s.proto = .direct → s.tunnel ≠ .absent) ∧ (s.proto.isSS = true → s.filterSize ≤ 1048576) := by
+  have inv := server_sound h
+  have ok := checkServer_ok h
+  refine ⟨inv.psk, inv.mtu, inv.tunnel, ?_⟩
+  intro hs
+  have i4 := ok.init (s.proto.isSS && !filterSizeOK C18.serverFilterSizeMax s.filterSize, "server-filter-size") (by simp [Server.initChecks])
+  have hfmax : C18.serverFilterSizeMax = some 1048576 := rfl
+  simpa [hs, hfmax, filterSizeOK] using i4
+
+/-- the API block: accepted => it has a listener, no TLS listener names a certificate list / CA pool that does not
+    exist, and NO pattern reaches `http.ServeMux` that makes it panic (F25 / F26) -/
+theorem api_sound {c : Config} {e : Eff} (h : validate c = .ok e) :
+    c.api.enabled = true → c.api.listeners ≠ [] ∧ (∀ l ∈ c.api.listeners, l.tls = true → l.certList = false ∧ l.clientCAs = false) ∧
+      c.api.secret ≠ .wildcard ∧ c.api.secret ≠ .malformed := by
+  intro hen
+  have ha := (validate_ok h).api
+  unfold checkApi at ha
+  rw [hen] at ha
+  simp only [Bool.not_true, Bool.false_eq_true, if_false] at ha
+  split at ha
+  · cases ha
+  · rename_i hne
+    split at ha
+    · cases ha
+    · rename_i ls hls
+      split at ha
+      · cases ha
+      · rename_i hmux
+        have hm := firstErr_none hmux
+        have h1 := hm (C18.apiSecretPathChecked && (c.api.secret = .wildcard || c.api.secret = .malformed), "api-secret-path") (by simp [Api.muxChecks])
+        have hchk : C18.apiSecretPathChecked = true := by decide
+        rw [hchk] at h1
+        refine ⟨isEmpty_false_iff.mp (by simpa using hne), ?_, ?_, ?_⟩
+        · intro l hl ht
+          obtain ⟨u, _, hu⟩ := mapE_ok_mem hls l hl
+          unfold checkApiListener at hu
+          split at hu
+          · cases hu
+          · rename_i hf
+            have hf' := firstErr_none hf
+            have a1 := hf' (l.tls && l.certList, "api-certlist") (by simp)
+            have a2 := hf' (l.tls && l.clientCAs, "api-clientcas") (by simp)
+            simp only [ht, Bool.true_and] at a1 a2
+            exact ⟨a1, a2⟩
+        · intro hw
+          simp [hw] at h1
+        · intro hw
+          simp [hw] at h1
+
+/-- Gen side condition: both guards in front of `http.ServeMux.Handle` exist, hence no `PANIC:` class is reachable -/
+theorem gen_api_guards : C18.apiSecretPathChecked = true ∧ C18.apiPprofIndexHasMethod = true := by decide
+
+/-- with the guards, the only error the ServeMux part of `NewServer` can produce is the refusal of a secret path with
+    braces: neither panic class of `Api.muxChecks` is reachable -/
+theorem api_no_panic (a : Api) (e : String) (h : firstErr a.muxChecks = some e) : e = "api-secret-path" := by
+  have ⟨g1, g2⟩ := gen_api_guards
+  unfold Api.muxChecks at h
+  rw [g1, g2] at h
+  simp only [firstErr, Bool.not_true, Bool.false_and, Bool.false_eq_true, if_false, Bool.true_and] at h
+  split at h
+  · exact (Option.some.inj h).symm
+  · cases h
+
+end SSV.C18
+
 #print axioms SSV.C18.gen_pskLen
 #print axioms SSV.C18.gen_mtu
 #print axioms SSV.C18.gen_nat
@@ -928,3 +1307,20 @@ end SSV.C18
 #print axioms SSV.C18.gen_replay_window
 #print axioms SSV.C18.gen_server_index
 #print axioms SSV.C18.server_index_in_range
+#print axioms SSV.C18.firstErr_all_false
+#print axioms SSV.C18.mapE_complete
+#print axioms SSV.C18.rangeDefault_complete
+#print axioms SSV.C18.checkUL_complete
+#print axioms SSV.C18.checkTL_complete
+#print axioms SSV.C18.gen_nat_exact
+#print axioms SSV.C18.minNatOf_eq
+#print axioms SSV.C18.isEmpty_false_iff
+#print axioms SSV.C18.checkServer_complete
+#print axioms SSV.C18.checkClient_complete
+#print axioms SSV.C18.checkClients_complete
+#print axioms SSV.C18.checkUnique_complete
+#print axioms SSV.C18.validate_complete_partial
+#print axioms SSV.C18.serverSpec_of_accepted
+#print axioms SSV.C18.api_sound
+#print axioms SSV.C18.gen_api_guards
+#print axioms SSV.C18.api_no_panic
